@@ -12,6 +12,7 @@ import (
 	"bytes"
 	"encoding/hex"
 
+	"github.com/q191201771/lal/pkg/aac"
 	"github.com/q191201771/lal/pkg/base"
 	"github.com/q191201771/lal/pkg/h2645"
 	"github.com/q191201771/lal/pkg/rtprtcp"
@@ -416,12 +417,7 @@ func (p *PsUnpacker) parseAvStream(code int, rtpts uint32, rb []byte, index int)
 						// noop
 					} else {
 						if p.preAudioRtpts != int64(rtpts) {
-							p.onAvPacketWrap(&base.AvPacket{
-								PayloadType: p.audioPayloadType,
-								Timestamp:   p.preAudioDts / 90,
-								Pts:         p.preAudioPts / 90,
-								Payload:     p.audioBuf,
-							})
+							p.emitAudio()
 							// TODO(chef): [perf] 复用内存块 202209
 							p.audioBuf = nil
 						} else {
@@ -435,12 +431,7 @@ func (p *PsUnpacker) parseAvStream(code int, rtpts uint32, rb []byte, index int)
 				}
 			} else {
 				if pts != p.preAudioPts && p.preAudioPts >= 0 {
-					p.onAvPacketWrap(&base.AvPacket{
-						PayloadType: p.audioPayloadType,
-						Timestamp:   p.preAudioDts / 90,
-						Pts:         p.preAudioPts / 90,
-						Payload:     p.audioBuf,
-					})
+					p.emitAudio()
 					p.audioBuf = nil
 				} else {
 					// noop
@@ -583,6 +574,48 @@ func (p *PsUnpacker) iterateNaluByStartCode(code int, pts, dts int64) {
 			preLeading = leading
 		}
 	}
+}
+
+// emitAudio 回调缓存中的音频数据
+//
+// 一个PES里可能打包了多个adts帧（只有第一帧有pts），此时按adts头中的帧长度逐帧回调，后续帧的时间戳在90k时钟上
+// 按每帧1024个采样递增后再转换为毫秒，避免毫秒上的二次取整
+func (p *PsUnpacker) emitAudio() {
+	data := p.audioBuf
+	if p.audioStreamType == StreamTypeAAC && len(data) > adtsMinLen {
+		frameLen := int(data[3]&0x3)<<11 | int(data[4])<<3 | int(data[5])>>5
+		if frameLen >= adtsMinLen && frameLen < len(data) {
+			var step int64
+			if ctx, err := aac.NewAdtsHeaderContext(data[:adtsMinLen]); err == nil {
+				if sf, err := ctx.AscCtx.GetSamplingFrequency(); err == nil && sf > 0 {
+					step = int64(sf)
+				}
+			}
+			if step > 0 {
+				for k := int64(0); len(data) >= adtsMinLen; k++ {
+					frameLen = int(data[3]&0x3)<<11 | int(data[4])<<3 | int(data[5])>>5
+					if frameLen < adtsMinLen || frameLen > len(data) {
+						break
+					}
+					off := (k*1024*90000 + step/2) / step
+					p.onAvPacketWrap(&base.AvPacket{
+						PayloadType: p.audioPayloadType,
+						Timestamp:   (p.preAudioDts + off) / 90,
+						Pts:         (p.preAudioPts + off) / 90,
+						Payload:     data[:frameLen:frameLen],
+					})
+					data = data[frameLen:]
+				}
+				return
+			}
+		}
+	}
+	p.onAvPacketWrap(&base.AvPacket{
+		PayloadType: p.audioPayloadType,
+		Timestamp:   p.preAudioDts / 90,
+		Pts:         p.preAudioPts / 90,
+		Payload:     p.audioBuf,
+	})
 }
 
 func (p *PsUnpacker) onAvPacketWrap(packet *base.AvPacket) {
